@@ -313,6 +313,26 @@ class Gen:
             sub = self.select(outer, depth - 1, want=None, classes=classes, plain=r.chance(60), corr=False)
             self._last_est = max(1, sub.est)
             return "(%s) AS %s" % (sub.sql, al), "(fq %s)" % sub.sx, list(zip(sub.names, sub.types)), al
+        if self.o.get("values_items", True) and r.chance(8):
+            # (VALUES (..), (..)) AS al(c0, c1): a literal relation
+            ncols = 1 + r.below(3)
+            tys = [r.choice(["i32", "text", "bool", "i32"]) for _ in range(ncols)]
+            nrows = r.choice([1, 2, 3, 4])
+            rows_sql, rows_sx = [], []
+            for ri in range(nrows):
+                cells = []
+                for t in tys:
+                    if ri > 0 and r.chance(15):
+                        cells.append(("NULL", "(const N)"))
+                    else:
+                        cells.append(self.lit(t))
+                rows_sql.append("(" + ", ".join(c[0] for c in cells) + ")")
+                rows_sx.append("(" + " ".join(c[1] for c in cells) + ")")
+            classes.add("values_item")
+            self._last_est = nrows
+            names = ["c%d" % i for i in range(ncols)]
+            return "(VALUES %s) AS %s(%s)" % (", ".join(rows_sql), al, ", ".join(names)), \
+                   "(fq (values (%s)))" % " ".join(rows_sx), list(zip(names, tys)), al
         if self.views and r.chance(30):
             name, sub = r.choice(self.views)
             classes.add("view")
